@@ -136,9 +136,9 @@ def check_tree(tree, which):
     uniq = unique_names(top)
     coll = SymbolTableCollection()
     refs = []
-    for root in NAMES[:2]:
+    for root in NAMES[:2] + [""]:  # the empty string is a legal symbol name
         refs.append((root, ()))
-        for n1 in NAMES[:2]:
+        for n1 in NAMES[:2] + [""]:
             refs.append((root, (n1,)))
             refs.append((root, (n1, NAMES[0])))
     for op in all_ops(top):
@@ -197,6 +197,9 @@ def gen_trees(tier):
             tops.append(None)
             continue
         tops.append([m1, m2])
+    # symbols named by the empty string (legal, and falsy in Python)
+    deep.append(("mod", "", "public", [("fn", "a", "public", []), ("fn", "", "public", [])]))
+    deep.append(("mod", "a", "public", [("mod", "", "public", [("fn", "a", "public", [])]), ("fn", "", "private", [])]))
     for d in deep:
         tops.append([d])
         tops.append([d, ("fn", "b", "public", [])])
